@@ -1,0 +1,33 @@
+//go:build verif
+
+package gen
+
+// VerifTables returns the byte-class tables of the package's state machines by
+// name. It is compiled only with the verif build tag and has no effect on
+// behaviour; the verification harness uses it to name parser modes.
+func VerifTables() map[string]string {
+	return map[string]string{
+		"valueMap":   valueMap,
+		"nullMap":    nullMap,
+		"trueMap":    trueMap,
+		"falseMap":   falseMap,
+		"commaMap":   commaMap,
+		"afterMap":   afterMap,
+		"key1Map":    key1Map,
+		"keyMap":     keyMap,
+		"colonMap":   colonMap,
+		"negMap":     negMap,
+		"zeroMap":    zeroMap,
+		"digitMap":   digitMap,
+		"dotMap":     dotMap,
+		"fracMap":    fracMap,
+		"expSignMap": expSignMap,
+		"expZeroMap": expZeroMap,
+		"expMap":     expMap,
+		"stringMap":  stringMap,
+		"escMap":     escMap,
+		"escByteMap": escByteMap,
+		"uMap":       uMap,
+		"spaceMap":   spaceMap,
+	}
+}
